@@ -1,5 +1,5 @@
 \* C06 step M, quick: the design with the code's constants and the proposed 180 s age limit in the
-\* surface branch refines TrajectoryAbs for every history of <= 3 delivered reports (swaps included)
+\* surface branch refines TrajectoryAbs for every history of <= 3 delivered reports (swaps included), 10 critical gaps
 SPECIFICATION Spec
 VIEW View
 INVARIANT SafeCex
@@ -12,7 +12,7 @@ CONSTANTS
   SurfRefWindow = 180
   NoGuard = FALSE
   RxRef = 600
-  DTs = {0, 1, 9, 10, 16, 17, 179, 180, 181, 472, 480, 1000, 1888, 1920}
+  DTs = {0, 1, 9, 10, 17, 179, 180, 472, 1000, 1888}
   Dirs <- Dirs3
   Aircraft = {1}
   StartSet = {64, 500}
